@@ -17,7 +17,12 @@ for n in names:
         continue
     st = subprocess.run("git -C /repo status --porcelain", shell=True, capture_output=True, text=True).stdout.strip()
     assert st == "", "repo not clean: " + st
-    assert subprocess.run("git -C /repo apply " + os.path.join(d, "patch.diff"), shell=True).returncode == 0
+    if subprocess.run("git -C /repo apply " + os.path.join(d, "patch.diff"), shell=True, capture_output=True).returncode != 0:
+        # hook-only lines were added to the tree after the patch was written: allow reduced context
+        rc = subprocess.run("git -C /repo apply -C1 " + os.path.join(d, "patch.diff"), shell=True).returncode
+        if rc != 0:
+            print(n, "PATCH DOES NOT APPLY (skipped)")
+            continue
     res = {}
     try:
         for c in checks:
